@@ -20,7 +20,8 @@ from simkit import xmlref
 from simkit.kernel import HarnessError, Violation
 
 ALPHABET = ["a", "b", "Z", " ", " ", " ", "\t", "\n", "<", ">", "&", '"', "'", "é", "漢", "\U0001F600", "x1", "  ", "   ",
-            "\u00a0", "\u202f", "\u3000", "\u2003"]  # NBSP & co: white space for Python's \s, plain characters for ODF
+            "\u00a0", "\u202f", "\u3000", "\u2003",  # NBSP & co: white space for Python's \s, plain characters for ODF
+            "\u2028", "\u0085", "\u2029", "\u2028 "]  # line boundaries for str.splitlines(), plain characters for XML 1.0 / ODF
 WORDS = ["alpha", "beta", "gamma", "delta", "le", "chat", "Ab", "x", "été", "漢字", "10\u00a0000", "n\u202fo", "全\u3000角"]
 
 
